@@ -255,12 +255,17 @@ for attempt in range(1, 31):
         judge(f"S5 delete-then-queued-request (attempt {attempt})", st)
         s5_seen = True
         break
+    if not any(e.startswith("R2:") for e in st.trace) and st.closed == 1:
+        # DELETE won the lock and the queued request was refused instead of dispatched: the correct outcome
+        judge(f"S5 delete-then-queued-request (attempt {attempt}; queued request refused)", st)
+        s5_seen = True
+        break
 if not s5_seen:
     print("S5 delete-then-queued-request: interleaving not hit in 30 attempts (the lock hand-off favoured the request)")
 
 print()
 if STATE_ERR:
-    print("client-side errors observed:", STATE_ERR)
+    print("client-side errors observed:", sorted(set(STATE_ERR)))
 if violations:
     print(f"DEFECT REPRODUCED in {len(violations)} schedule(s): {violations}")
     sys.exit(1)
